@@ -64,8 +64,46 @@ pub fn catch<T>(f: impl FnOnce() -> T) -> Result<T, String> {
     }
 }
 
-/// Silence the panic printer for panics inside `catch` (expected outcomes); a panic anywhere else
-/// is a harness bug: print it and exit 2 (machinery failure, never a verdict).
+/// Silence the panic printer for panics inside `catch` (expected outcomes). A panic anywhere else:
+///  * raised by LIBRARY code (location under the repository root), i.e. in a call the harness makes
+///    without a guard because on the unchanged tree it never panics (honest sharding, encoding of
+///    honest values, reference instances, ...), or an `unwrap`/`expect` of the harness on the result
+///    of such a call: the library's behaviour on an honest call has changed — a verdict (VIOLATION
+///    with the panic location as the case key, exit 1);
+///  * anything else is a harness bug: print it and exit 2 (machinery failure, never a verdict).
+pub fn quiet_panics_for(id: &'static str) {
+    let id = id.to_string();
+    std::panic::set_hook(Box::new(move |info| {
+        if IN_CATCH.with(|c| c.get()) != 0 {
+            return;
+        }
+        let root = std::env::var("VERIF_REPO").unwrap_or_else(|_| "/repo".into());
+        let (file, line) = info.location().map(|l| (l.file().to_string(), l.line())).unwrap_or_default();
+        let text = format!("{info}");
+        let in_library = file.starts_with(&format!("{root}/")) || file.starts_with("/repo/");
+        let honest_unwrap = text.contains("called `Result::unwrap()` on an `Err` value") || text.contains("called `Option::unwrap()` on a `None` value");
+        if in_library || honest_unwrap {
+            let rel = file.trim_start_matches(root.as_str()).trim_start_matches("/repo").trim_start_matches('/').to_string();
+            let key = if in_library { format!("library_panic/{rel}") } else { format!("honest_call_failed/{rel}:{line}") };
+            let what = if in_library {
+                format!("library code panicked in a call that never panics on the unchanged tree (an honest, unguarded call of the check): {}", text.replace('\n', " "))
+            } else {
+                format!("a library call that always succeeds on the unchanged tree (honest arguments) returned an error/None: {}", text.replace('\n', " "))
+            };
+            let path = format!("/verif/replays/{}-{:016x}.json", id, fnv(key.as_bytes()));
+            let _ = std::fs::create_dir_all("/verif/replays");
+            let _ = std::fs::write(&path, format!("{{\"property\": {:?}, \"key\": {:?}, \"what\": {:?}, \"replay\": \"./check {} quick\"}}", id, key, what, id));
+            println!("VIOLATION property={} replay={}", id, path);
+            println!("  what: {}", what);
+            eprintln!("(run aborted at the first unguarded failure; evidence file not rewritten)");
+            std::process::exit(1);
+        }
+        eprintln!("MACHINERY: harness panic: {info}");
+        std::process::exit(2);
+    }));
+}
+
+/// As [`quiet_panics_for`] without a property (worker subprocesses): any unguarded panic is a machinery failure.
 pub fn quiet_panics() {
     std::panic::set_hook(Box::new(|info| {
         if IN_CATCH.with(|c| c.get()) == 0 {
